@@ -4,6 +4,9 @@ Helper lemmas for C10 (`Props/C10.lean`): the child-schedule heap as a sorted li
 loops, the per-slot effect of every phase of `MapNode.cycle`, and the inductive invariant `Inv`.
 Core Lean only.
 -/
+set_option linter.unusedSimpArgs false
+set_option linter.unusedVariables false
+
 namespace HgVerif.MapNode
 
 local notation "Time" => Nat
